@@ -270,6 +270,7 @@ def run_C18(ctx, R):
     _per_config(ctx, R, lst.lst5)
     from .rules import tree
     _scoped(ctx, R, tree.tab3, C18_ENTRIES, 6)
+    _per_config(ctx, R, utilsx.mrg5)
 
 
 def run_C19(ctx, R):
